@@ -17,10 +17,17 @@
   the digit is wider than the primitive or the primitive is a whole number of digits (true for all
   real digit/primitive widths).  Modelling abstraction: `i << BIT_SHIFT` is `i * w`.
 
+  The primitive → bnum dispatcher the driver executes has its own value-level theorem
+  (`try_from_prim`, with F6 as the single explicit exclusion; `from_prim_total`: the `From`
+  directions — and hence core's blanket `TryFrom` over them — never answer `Err`).  The digit-array
+  clause is stated on the VALUE (`digits_little_endian`: digit `i` is `value / B^i mod B`) and the
+  driver's independent specification functions are tied to `U` (`spec_from_digits`, `spec_digits`),
+  besides the definitional identities (`fromDigits`/`digits` mirror the Rust field access).
+
   KNOWN DEFECT (F6): `From<uK> for BInt<N>` with `K = BITS` wraps — see `from_uint_signed_partial`
   (hypothesis `K < BITS`) and the counterexample `from_uint_signed_defect`.
 -/
-import Bnum.Lemmas.Cast
+import Bnum.Lemmas.C13Extra
 namespace Bnum.C13
 open Bnum
 
@@ -140,6 +147,55 @@ theorem try_from_prim_ne_panic {w n : Nat} {t : PTy} {p : Nat} (s : Bool) (hw : 
     unfold II.fromUint; rw [h]; intro h; cases h
   · obtain ⟨r, h, _⟩ := II.fromInt_spec hw hn hk1 hk hp; rw [h]; intro h; cases h
 
+/-- VALUE-level theorem for the dispatcher the driver runs (`try <prim> <bnum> v`, plain and `tf`
+    form): for every primitive source at most as wide as the target the answer is `Ok` of the same
+    number exactly when it is representable and `Err` otherwise — F6 (unsigned `K`-bit primitive
+    into a signed target of exactly `K` bits) is the single explicit exclusion. -/
+theorem try_from_prim {w n : Nat} {t : PTy} {p : Nat} (s : Bool) (hw : 1 ≤ w) (hn : 1 ≤ n)
+    (hk1 : 1 ≤ t.bits) (hk : t.bits ≤ w * n)
+    (hF6 : ¬ (s = true ∧ t.signed = false ∧ t.bits = w * n)) (hp : p < B t.bits) :
+    ConvOk s w n (tryFromPrim w n s t p) (PInt.val t p) := tryFromPrim_spec s hw hn hk1 hk hF6 hp
+example : (1 : Nat) ≤ 16 ∧ 16 ≤ 8 * 2 ∧ ¬ (true = true ∧ true = false ∧ 16 = 8 * 2) ∧ (0x8000 : Nat) < B 16 ∧
+    tryFromPrim 8 2 true ⟨16, true⟩ 0x8000 = .ok (some [0x00, 0x80]) ∧
+    tryFromPrim 8 2 false ⟨16, true⟩ 0x8000 = .ok none ∧
+    tryFromPrim 8 3 true ⟨16, false⟩ 0x8000 = .ok (some [0x00, 0x80, 0x00]) := by decide
+/-- `Ok` exactly when representable, and then the same number -/
+theorem try_from_prim_ok_iff {w n : Nat} {t : PTy} {p : Nat} (s : Bool) (hw : 1 ≤ w) (hn : 1 ≤ n)
+    (hk1 : 1 ≤ t.bits) (hk : t.bits ≤ w * n)
+    (hF6 : ¬ (s = true ∧ t.signed = false ∧ t.bits = w * n)) (hp : p < B t.bits) :
+    (∃ r, tryFromPrim w n s t p = .ok (some r)) ↔ repOf s (M w n) (PInt.val t p) :=
+  (try_from_prim s hw hn hk1 hk hF6 hp).ok_iff
+theorem try_from_prim_value {w n : Nat} {t : PTy} {p : Nat} {r : List Nat} (s : Bool) (hw : 1 ≤ w)
+    (hn : 1 ≤ n) (hk1 : 1 ≤ t.bits) (hk : t.bits ≤ w * n)
+    (hF6 : ¬ (s = true ∧ t.signed = false ∧ t.bits = w * n)) (hp : p < B t.bits)
+    (hr : tryFromPrim w n s t p = .ok (some r)) : WF w n r ∧ valOf s w r = PInt.val t p :=
+  (try_from_prim s hw hn hk1 hk hF6 hp).value hr
+/-- the `From` directions (every pair except signed primitive → unsigned bnum) never answer `Err`:
+    this is what makes the blanket `TryFrom` (`Ok(U::into(x))`, error `Infallible`) total -/
+theorem from_prim_total {w n : Nat} {t : PTy} {p : Nat} (s : Bool) (hw : 1 ≤ w) (hn : 1 ≤ n)
+    (hk1 : 1 ≤ t.bits) (hk : t.bits ≤ w * n)
+    (hF6 : ¬ (s = true ∧ t.signed = false ∧ t.bits = w * n))
+    (hfrom : ¬ (s = false ∧ t.signed = true)) (hp : p < B t.bits) :
+    ∃ r, tryFromPrim w n s t p = .ok (some r) ∧ WF w n r ∧ valOf s w r = PInt.val t p := by
+  have hBM : B t.bits ≤ M w n := Nat.pow_le_pow_right (by decide) hk
+  rcases try_from_prim s hw hn hk1 hk hF6 hp with ⟨_, r, h1, h2, h3⟩ | ⟨hnr, _⟩
+  · exact ⟨r, h1, h2, h3⟩
+  · exfalso; apply hnr
+    unfold PInt.val
+    cases s <;> cases hs : t.signed <;> simp only [Bool.false_eq_true, if_false, if_true]
+    · exact repU_of_lt (Nat.lt_of_lt_of_le hp hBM)
+    · exact absurd ⟨rfl, hs⟩ hfrom
+    · have hlt : t.bits < w * n := by
+        rcases Nat.lt_or_ge t.bits (w * n) with h | h
+        · exact h
+        · exact absurd ⟨rfl, hs, Nat.le_antisymm hk h⟩ hF6
+      have : B (t.bits + 1) ≤ M w n := Nat.pow_le_pow_right (by decide) hlt
+      apply repS_of_two_mul_lt
+      unfold B at *; rw [Nat.pow_succ] at this; omega
+    · exact repS_toInt_of_le (B_even hk1) hp hBM
+example : ¬ (true = true ∧ false = false ∧ 8 = 16 * 1) ∧ ¬ (true = false ∧ false = true) ∧
+    tryFromPrim 16 1 true ⟨8, false⟩ 0xff = .ok (some [0xff]) ∧ valOf true 16 [0xff] = 255 := by decide
+
 /-- `From<bool>` (both signednesses): `false ↦ 0`, `true ↦ 1` -/
 theorem from_bool {w n : Nat} (hw : 2 ≤ w) (hn : 1 ≤ n) (b : Bool) :
     II.fromBool n b = UI.fromBool n b ∧ WF w n (UI.fromBool n b)
@@ -148,6 +204,11 @@ theorem from_bool {w n : Nat} (hw : 2 ≤ w) (hn : 1 ≤ n) (b : Bool) :
 /-- `From<char> for BUint<N>`: the code point, whenever it fits (`BITS ≥ 32`: always) -/
 theorem from_char {w n c : Nat} (hn : 1 ≤ n) (hc : c < B 32) (hcM : c < M w n) :
     FromOk false w n (UI.fromChar w n c) (c : Int) := UI.fromChar_spec hn hc hcM
+/-- in scope (`BITS ≥ 32`, "at least as wide as the source"): every `char` -/
+theorem from_char_in_scope {w n c : Nat} (hn : 1 ≤ n) (hk : 32 ≤ w * n) (hc : c < B 32) :
+    FromOk false w n (UI.fromChar w n c) (c : Int) :=
+  UI.fromChar_spec hn hc (Nat.lt_of_lt_of_le hc (Nat.pow_le_pow_right (by decide) hk))
+example : (0xe000 : Nat) < B 32 ∧ 32 ≤ 16 * 2 ∧ UI.fromChar 16 2 0xe000 = .ok [0xe000, 0] := by decide
 example : (0x10ffff : Nat) < B 32 ∧ 0x10ffff < M 8 3 ∧
     UI.fromChar 8 3 0x10ffff = .ok [0xff, 0xff, 0x10] := by decide
 
@@ -156,6 +217,21 @@ theorem from_digits_digits (a : List Nat) : UI.fromDigits (UI.digits a) = a := r
 theorem digits_from_digits (d : List Nat) : UI.digits (UI.fromDigits d) = d := rfl
 /-- `from_digits` / `From<[Digit; N]>` denote the little-endian positional value of the array -/
 theorem from_digits_value (w : Nat) (d : List Nat) : U w (UI.fromDigits d) = U w d := rfl
+/-- little-endian, stated on the value: digit `i` of `digits()` / `Into<[Digit; N]>` is
+    `value / B^i mod B` (so the array is exposed unchanged AND in little-endian order) -/
+theorem digits_little_endian {w n : Nat} {x : List Nat} (hx : WF w n x) (i : Nat) (hi : i < n) :
+    (UI.digits x).getD i 0 = U w x / B w ^ i % B w := digits_getD hx i hi
+example : WF 8 3 [0x11, 0x22, 0x33] ∧ U 8 [0x11, 0x22, 0x33] = 0x332211 ∧
+    (UI.digits [0x11, 0x22, 0x33]).getD 1 0 = 0x332211 / B 8 ^ 1 % B 8 := by decide
+/-- the independent specification functions the driver compares against (`Drive/C13.lean`) are the
+    positional value and its inverse: `from_digits`/`From<[Digit; N]>` … -/
+theorem spec_from_digits (w : Nat) (d : List Nat) :
+    Drive.C13.digitsValue w d = U w (UI.fromDigits d) := digitsValue_eq_U w d
+/-- … and `digits()` / `From<BUint<N>> for [Digit; N]` -/
+theorem spec_digits {w n : Nat} {x : List Nat} (hx : WF w n x) :
+    Drive.C13.valueDigits w n (U w x) = UI.digits x := valueDigits_U hx
+example : WF 16 2 [0xbeef, 0xdead] ∧ Drive.C13.digitsValue 16 [0xbeef, 0xdead] = 0xdeadbeef ∧
+    Drive.C13.valueDigits 16 2 0xdeadbeef = [0xbeef, 0xdead] := by decide
 /-- `from_digit(d)`: no panic (`N ≥ 1`), the digit lands in the least significant position -/
 theorem from_digit {w n d : Nat} (hn : 1 ≤ n) :
     UI.fromDigitO n d = .ok (fromDigit n d) ∧ U w (fromDigit n d) = d := UI.fromDigitO_spec hn
